@@ -74,7 +74,7 @@ def step (st : St) (line : String) : St × List String :=
       match assemble src st.fix with
       | .error e => ({ st with parsed := some src }, [s!"R err {errName e}", facts src])
       | .ok bm => ({ st with parsed := some src, bm := some bm },
-                   [ "R ok", facts src ] ++ showBM bm ++ [s!"WF {if WfBM bm then 1 else 0} cf={if CfClosed bm then 1 else 0}"])
+                   [ "R ok", facts src ] ++ showBM bm ++ [s!"WF {if WfBM bm && wiringAgrees src bm then 1 else 0} cf={if CfClosed bm then 1 else 0} wire={if wiringAgrees src bm then 1 else 0}"])
   | "M" :: _ => ({ st with implBm := some (bmLine default line) }, [])
   | "C" :: _ => ({ st with implBm := st.implBm.map fun b => bmLine b line }, [])
   | "W" :: _ => ({ st with implBm := st.implBm.map fun b => bmLine b line }, [])
